@@ -103,7 +103,8 @@ def check_one(part, A, T, tname, reflect, npat, case):
     inter[0::2], inter[1::2] = A, B
     chain = np.vstack([A, B])
     for lname, Av, Bv in (("table-columns", table[:, :3], table[:, 3:]), ("interleaved-rows", inter[0::2], inter[1::2]), ("windows-of-one-array", chain[:n], chain[n:]),
-                          ("fortran-order", np.asfortranarray(A), np.asfortranarray(B))):
+                          ("fortran-order", np.asfortranarray(A), np.asfortranarray(B)),
+                          ("float32", A.astype(np.float32), B.astype(np.float32)), ("float32-and-float64", A.astype(np.float32), B)):
         part.tr()
         try:
             Rv = np.asarray(kabsch_rotation_matrix(Av, Bv), dtype=float)
@@ -115,6 +116,18 @@ def check_one(part, A, T, tname, reflect, npat, case):
         # comparison is on what the statement fixes: a proper rotation reaching the optimal deviation, and the reported RMSD)
         okv = Rv.shape == (3, 3) and np.abs(Rv @ Rv.T - np.eye(3)).max() < 1e-10 and abs(np.linalg.det(Rv) - 1.0) < 1e-9
         gv = float(np.sqrt(np.vdot(A @ Rv - B, A @ Rv - B) / len(A))) if okv else np.inf
+        if lname.startswith("float32") and float(np.abs(A).max()) > 100.0:
+            continue        # single precision cannot hold the small sets far from the origin (their covariance loses |A|^2 x 6e-8)
+        if lname.startswith("float32"):
+            # single-precision input: the answer is a proper rotation reaching the optimum to single-precision accuracy - for every
+            # relation, reflections and noise included (pairwise: the dtype TOGETHER WITH a mirror image)
+            sc = max(1.0, float(np.abs(A).max()))
+            ok32 = Rv.shape == (3, 3) and np.abs(Rv @ Rv.T - np.eye(3)).max() < 1e-4 and abs(np.linalg.det(Rv) - 1.0) < 1e-4
+            g32 = float(np.sqrt(np.vdot(A @ Rv - B, A @ Rv - B) / len(A))) if ok32 else np.inf
+            if not ok32 or not (g32 <= ref + 1e-4 * sc) or not (abs(rv - r2) <= 1e-4 * sc):
+                part.fail("layout-dependence:float32", "the same point sets given as float32 arrays: %s, reaches RMSD %.6f (optimum %.6f), rmsd_points %.6f vs %.6f"
+                          % ("a proper rotation" if ok32 else "NOT a proper rotation (det %.3f)" % (np.linalg.det(Rv) if Rv.shape == (3, 3) else np.nan), g32, ref, rv, r2), case)
+            continue
         if not okv or not (gv <= ref + TOL) or not (abs(rv - r2) <= 1e-9):
             part.fail("layout-dependence:%s" % lname, "the same point sets given as %s of one buffer: rotation reaches RMSD %.9f (optimum %.9f), rmsd_points %.9f vs %.9f"
                       % (lname, gv, ref, rv, r2), case)
